@@ -577,7 +577,26 @@ def exec_flat(trace, prop) -> Result:
                 keys = sorted(rep)
             except Exception as e:  # noqa: BLE001
                 keys = type(e).__name__
+                rep = None
             hs.add(i, "INSPECT", keys)
+            if rep is not None:
+                # the table is a read-out of the store (it is produced with the read functions): every row shows the
+                # composition of the most recently written cells - rendered with the repository's own formatter - and
+                # nothing is listed after a reset
+                fmt = m["get_n_bit_representations"]
+                bits, ncell = (16, 1) if toy else (32, 4)
+                bad = None
+                for a_ in keys:
+                    if not all(model.in_range(c) for c in model.cell_addrs(a_, ncell)):
+                        continue
+                    want = list(fmt(model.read(a_, ncell), bits))
+                    if list(rep[a_]) != want:
+                        bad = (a_, want, list(rep[a_]))
+                        break
+                if bad:
+                    res.violate("C18", "memory-table-differs-from-content", at=i, address=bad[0], expected=bad[1], got=bad[2])
+                    break
+                res.probes["memory table compared with the cell map" + (" (empty)" if not keys else "")] += 1
             continue
         w, addr = op[1], op[2]
         n = w // cw
